@@ -361,6 +361,7 @@ class _resolve_called_lambdas(ast.NodeTransformer):
 
     def __init__(self):
         self._arg_map_list = []
+        self._rename_counter = 0
 
     def visit_Call(self, node: ast.Call) -> Any:
         # Check if the function being called is a lambda
@@ -381,6 +382,37 @@ class _resolve_called_lambdas(ast.NodeTransformer):
         else:
             return self.generic_visit(node)
         return node
+
+    def visit_Lambda(self, node: ast.Lambda) -> Any:
+        """The parameters of a lambda inside the body being resolved hide arguments of the same
+        name, and must not capture a name used by an argument expression being substituted in
+        (in which case the parameter is renamed)."""
+        if len(self._arg_map_list) == 0:
+            return self.generic_visit(node)
+
+        used = {
+            n.id
+            for arg_map in self._arg_map_list
+            for v in arg_map.values()
+            for n in ast.walk(v)
+            if isinstance(n, ast.Name)
+        }
+        mapping = {}
+        for a in node.args.args:
+            new_name = a.arg
+            while new_name in used:
+                self._rename_counter += 1
+                new_name = f"{a.arg}_{self._rename_counter}"
+            mapping[a.arg] = ast.Name(id=new_name, ctx=ast.Load())
+
+        new_args = copy.copy(node.args)
+        new_args.defaults = [self.visit(d) for d in node.args.defaults]
+        new_args.args = [ast.arg(arg=mapping[a.arg].id) for a in node.args.args]
+
+        self._arg_map_list.append(mapping)
+        new_body = self.visit(node.body)
+        self._arg_map_list.pop()
+        return ast.Lambda(args=new_args, body=new_body)
 
     def visit_Name(self, node: ast.Name) -> Any:
         "Look through the arg map to see if it is a argument"
